@@ -410,6 +410,9 @@ pub fn check_program(ctx: &Ctx, nodes: &[Node], tag: &str) {
                 }
                 Err(e) => ctx.violation("layout/trace", format!("pass-1/pass-2 trace: {}", e), replay(json!(null))),
             }
+            if b.code == r.code && b.eeprom == r.eeprom && b.ram_filling == r.ram_filling {
+                crate::props::variants::check_one(ctx, nodes, b, &mut Rng::for_case(fw::hash_str(&src), 0x7A80, 0), "layout");
+            }
         }
         (Ok(_), Outcome::Err(e)) => ctx.violation("layout/valid-program-rejected", format!("valid layout program rejected: {}", fw::clip(e, 160)), replay(json!(null))),
         (Err(RefErr::Fail(f)), Outcome::Ok(_)) => {
@@ -526,7 +529,7 @@ pub fn run(ctx: &Ctx) -> i32 {
     probes(ctx);
     fw::finish(
         ctx,
-        "random layout programs: 1-60 items over arbitrarily interleaved .cseg/.dseg/.eseg blocks, one/two-word instructions, .db with odd/even counts and strings, .dw/.dd/.dq, .byte in RAM and EEPROM, own-line and inline labels, `.dd label` tables referencing labels of all segments (forward and backward), forward `.org` (incl. to the current position), devices with RAM start 0x60/0x100/0x200/0x40 (reduced core) and none; 1 in 12 programs carries a backward `.org` (must fail); every second valid program is rebuilt with up to three runs of its lines moved into argument-less macros (bodies that start with .org or a segment switch, end with a segment switch, definition before or after the call) and must give the same images; plus fixed probes for `.org 0`, non-literal .org/.byte operands and .org directly before a segment switch; distinct_nontrivial = distinct program skeletons (sequence of node kinds, segments and sizes)",
+        "random layout programs: 1-60 items over arbitrarily interleaved .cseg/.dseg/.eseg blocks, one/two-word instructions, .db with odd/even counts and strings, .dw/.dd/.dq, .byte in RAM and EEPROM, own-line and inline labels, `.dd label` tables referencing labels of all segments (forward and backward), forward `.org` (incl. to the current position), devices with RAM start 0x60/0x100/0x200/0x40 (reduced core) and none; 1 in 12 programs carries a backward `.org` (must fail); every second valid program is rebuilt with up to three runs of its lines moved into argument-less macros (bodies that start with .org or a segment switch, end with a segment switch, definition before or after the call) and must give the same images; plus fixed probes for `.org 0`, non-literal .org/.byte operands and .org directly before a segment switch; every valid program once more in one randomly chosen setting that means nothing (as a file beginning with blank lines / CRLF / no final line end; a run of top-level lines in an included file; inside a selected branch; followed by .exit and unread text; preceded by unused definitions; respelled; branch and included file at once) with the same images, sizes, RAM extent and message texts required (props/variants.rs; counters variants:*); distinct_nontrivial = distinct program skeletons (sequence of node kinds, segments and sizes)",
         &[
             "refmodel/layout.rs + isa.rs; device figures read from DEVICES (C12 checks them against vendor data)",
             "every generated .org is directly followed by an item of the same segment (what a pending .org means across a segment switch is not specified; probed separately)",
@@ -552,6 +555,9 @@ pub fn skeleton_hash(nodes: &[Node]) -> u64 {
 }
 
 pub fn replay(ctx: &Ctx, case: &Value) -> i32 {
+    if case.get("variant").is_some() {
+        return crate::props::variants::replay(ctx, case);
+    }
     // the stored program text is re-built and compared with the stored reference images
     let src = case["source"].as_str().unwrap_or("");
     let out = fw::build_str(src);
